@@ -1,8 +1,801 @@
-//! C14 — not built yet.
+//! C14 — the registry behaves as a JSON tree addressed by RFC 6901 pointers.
+//! Oracle: a plain serde_json::Value document + a table of callables with an invocation log, driven
+//! by an independent character-scanning pointer parser. After every checked operation: result class
+//! and value, the WHOLE document (so "unrelated pointers unchanged" is a consequence), the callable
+//! log (exactly one invocation, with the supplied body, only for a non-empty body at the callable's
+//! escape-normalised pointer). Also: public pointer helpers round trip, prefix mount replay through
+//! Router::with_registry, and linearizability of recorded concurrent histories.
+
 use crate::common::*;
+use repe::{ErrorCode, Message, QueryFormat, Registry, Router};
+use serde_json::{Map, Value, json};
+use std::collections::{BTreeMap, HashSet};
+use std::sync::atomic::{AtomicU64, Ordering};
+use std::sync::{Arc, Mutex};
+
+// ------------------------------------------------------------------ independent pointer parser
+
+/// RFC 6901 tokenizer. `Err(())` for a non-empty pointer without a leading '/', or a '~' not
+/// followed by '0' or '1'. "" and (registry convention, guarded in generators) "/" are the root.
+fn parse_ptr(p: &str) -> Result<Vec<String>, ()> {
+    if p.is_empty() {
+        return Ok(vec![]);
+    }
+    let b: Vec<char> = p.chars().collect();
+    if b[0] != '/' {
+        return Err(());
+    }
+    let mut toks = vec![];
+    let mut cur = String::new();
+    let mut i = 1;
+    while i < b.len() {
+        match b[i] {
+            '/' => toks.push(std::mem::take(&mut cur)),
+            '~' => {
+                i += 1;
+                match b.get(i) {
+                    Some('0') => cur.push('~'),
+                    Some('1') => cur.push('/'),
+                    _ => return Err(()),
+                }
+            }
+            c => cur.push(c),
+        }
+        i += 1;
+    }
+    toks.push(cur);
+    Ok(toks)
+}
+
+fn esc(t: &str) -> String {
+    let mut s = String::new();
+    for c in t.chars() {
+        match c {
+            '~' => s.push_str("~0"),
+            '/' => s.push_str("~1"),
+            c => s.push(c),
+        }
+    }
+    s
+}
+
+fn to_ptr(toks: &[String]) -> String {
+    toks.iter().map(|t| format!("/{}", esc(t))).collect()
+}
+
+fn index(tok: &str, len: usize) -> Option<usize> {
+    if tok.is_empty() || !tok.chars().all(|c| c.is_ascii_digit()) || (tok.len() > 1 && tok.starts_with('0')) {
+        return None;
+    }
+    tok.parse::<usize>().ok().filter(|i| *i < len)
+}
+
+fn resolve<'a>(doc: &'a Value, toks: &[String]) -> Option<&'a Value> {
+    let mut cur = doc;
+    for t in toks {
+        cur = match cur {
+            Value::Object(m) => m.get(t)?,
+            Value::Array(a) => a.get(index(t, a.len())?)?,
+            _ => return None,
+        };
+    }
+    Some(cur)
+}
+
+fn resolve_mut<'a>(doc: &'a mut Value, toks: &[String]) -> Option<&'a mut Value> {
+    let mut cur = doc;
+    for t in toks {
+        cur = match cur {
+            Value::Object(m) => m.get_mut(t)?,
+            Value::Array(a) => {
+                let i = index(t, a.len())?;
+                a.get_mut(i)?
+            }
+            _ => return None,
+        };
+    }
+    Some(cur)
+}
+
+// ------------------------------------------------------------------ model
+
+const NOT_FOUND: u32 = ErrorCode::MethodNotFound as u32;
+const INVALID_BODY: u32 = ErrorCode::InvalidBody as u32;
+
+#[derive(Clone, Debug, PartialEq)]
+enum Out {
+    /// read result / call result (value compared)
+    Val(Value),
+    /// write acknowledged (status value not specified by the statement)
+    Written,
+    /// read of a pointer that is a callable: descriptor not specified by the statement
+    FnDescriptor,
+    Err(u32),
+}
+
+#[derive(Clone)]
+struct Model {
+    doc: Value,
+    /// canonical pointer -> (callable id, error code it returns or 0)
+    fns: BTreeMap<String, (u64, u32)>,
+}
+
+impl Model {
+    fn new() -> Model {
+        Model { doc: Value::Object(Map::new()), fns: BTreeMap::new() }
+    }
+    fn ensure_parents(&mut self, toks: &[String]) -> &mut Map<String, Value> {
+        if !self.doc.is_object() {
+            self.doc = Value::Object(Map::new());
+        }
+        let mut cur = self.doc.as_object_mut().unwrap();
+        for t in &toks[..toks.len().saturating_sub(1)] {
+            let e = cur.entry(t.clone()).or_insert_with(|| Value::Object(Map::new()));
+            if !e.is_object() {
+                *e = Value::Object(Map::new());
+            }
+            cur = e.as_object_mut().unwrap();
+        }
+        cur
+    }
+    fn reg_path(path: &str) -> Result<Vec<String>, ()> {
+        if path.is_empty() || path == "/" {
+            return Ok(vec![]);
+        }
+        if path.starts_with('/') { parse_ptr(path) } else { parse_ptr(&format!("/{path}")) }
+    }
+    fn register_value(&mut self, path: &str, v: Value) -> Result<(), u32> {
+        let toks = Self::reg_path(path).map_err(|_| NOT_FOUND)?;
+        if toks.is_empty() {
+            self.doc = v;
+            return Ok(());
+        }
+        let last = toks.last().unwrap().clone();
+        self.ensure_parents(&toks).insert(last, v);
+        Ok(())
+    }
+    fn register_function(&mut self, path: &str, id: u64, err: u32) -> Result<(), u32> {
+        let toks = Self::reg_path(path).map_err(|_| NOT_FOUND)?;
+        if toks.is_empty() {
+            return Err(NOT_FOUND);
+        }
+        self.ensure_parents(&toks);
+        self.fns.insert(to_ptr(&toks), (id, err));
+        Ok(())
+    }
+    fn merge_at(&mut self, path: &str, obj: &Map<String, Value>) -> Result<(), u32> {
+        let toks = Self::reg_path(path).map_err(|_| NOT_FOUND)?;
+        if toks.is_empty() {
+            if !self.doc.is_object() {
+                self.doc = Value::Object(Map::new());
+            }
+            let m = self.doc.as_object_mut().unwrap();
+            for (k, v) in obj {
+                m.insert(k.clone(), v.clone());
+            }
+            return Ok(());
+        }
+        match resolve_mut(&mut self.doc, &toks) {
+            Some(Value::Object(m)) => {
+                for (k, v) in obj {
+                    m.insert(k.clone(), v.clone());
+                }
+                Ok(())
+            }
+            _ => Err(NOT_FOUND),
+        }
+    }
+    /// A request: pointer + optional body. Returns (outcome, Some((callable id, body)) if a callable must have run).
+    fn dispatch(&mut self, ptr: &str, body: Option<&Value>) -> (Out, Option<(u64, Value)>) {
+        let toks = match if ptr == "/" { Ok(vec![]) } else { parse_ptr(ptr) } {
+            Ok(t) => t,
+            Err(()) => return (Out::Err(NOT_FOUND), None),
+        };
+        let canon = to_ptr(&toks);
+        let Some(body) = body else {
+            if self.fns.contains_key(&canon) {
+                return (Out::FnDescriptor, None);
+            }
+            return match resolve(&self.doc, &toks) {
+                Some(v) => (Out::Val(v.clone()), None),
+                None => (Out::Err(NOT_FOUND), None),
+            };
+        };
+        if let Some((id, err)) = self.fns.get(&canon) {
+            let out = if *err != 0 { Out::Err(*err) } else { Out::Val(json!({"called": id, "echo": body})) };
+            return (out, Some((*id, body.clone())));
+        }
+        if toks.is_empty() {
+            let Value::Object(obj) = body else {
+                return (Out::Err(INVALID_BODY), None);
+            };
+            if !self.doc.is_object() {
+                self.doc = Value::Object(Map::new());
+            }
+            let m = self.doc.as_object_mut().unwrap();
+            for (k, v) in obj {
+                m.insert(k.clone(), v.clone());
+            }
+            return (Out::Written, None);
+        }
+        let (parent, last) = toks.split_at(toks.len() - 1);
+        match resolve_mut(&mut self.doc, parent) {
+            Some(Value::Object(m)) => {
+                m.insert(last[0].clone(), body.clone());
+                (Out::Written, None)
+            }
+            Some(Value::Array(a)) => match index(&last[0], a.len()) {
+                Some(i) => {
+                    a[i] = body.clone();
+                    (Out::Written, None)
+                }
+                None => (Out::Err(NOT_FOUND), None),
+            },
+            _ => (Out::Err(NOT_FOUND), None),
+        }
+    }
+}
+
+// ------------------------------------------------------------------ system under test
+
+type CallLog = Arc<Mutex<Vec<(u64, Value)>>>;
+
+struct Sys {
+    reg: Arc<Registry>,
+    log: CallLog,
+}
+
+impl Sys {
+    fn new() -> Sys {
+        Sys { reg: Arc::new(Registry::new()), log: Arc::new(Mutex::new(vec![])) }
+    }
+    fn register_function(&self, path: &str, id: u64, err: u32) -> Result<(), u32> {
+        let log = self.log.clone();
+        self.reg
+            .register_function(path, move |params: Option<Value>| {
+                let body = params.unwrap_or(Value::Null);
+                log.lock().unwrap().push((id, body.clone()));
+                if err != 0 {
+                    Err((ErrorCode::try_from(err).unwrap_or(ErrorCode::ApplicationErrorBase), "scripted failure".to_string()))
+                } else {
+                    Ok(json!({"called": id, "echo": body}))
+                }
+            })
+            .map_err(|e| e.code() as u32)
+    }
+    fn dispatch(&self, ptr: &str, body: Option<&Value>, model_says_fn_read: bool, is_write_ok: impl Fn(&Value) -> bool) -> Out {
+        match self.reg.dispatch(ptr, body.cloned()) {
+            Ok(v) => {
+                if body.is_none() {
+                    if model_says_fn_read { Out::FnDescriptor } else { Out::Val(v) }
+                } else if is_write_ok(&v) {
+                    Out::Written
+                } else {
+                    Out::Val(v)
+                }
+            }
+            Err(e) => Out::Err(e.code() as u32),
+        }
+    }
+    fn doc(&self) -> Value {
+        self.reg.read_value("").unwrap_or(Value::Null)
+    }
+}
+
+#[derive(Clone, Debug, PartialEq, Hash, Eq)]
+pub enum Op {
+    RegValue(String, String),
+    RegFn(String, u64, u32),
+    MergeAt(String, String),
+    Read(String),
+    Write(String, String),
+}
+
+fn vj(s: &str) -> Value {
+    serde_json::from_str(s).unwrap()
+}
+
+const TOKENS: [&str; 17] = ["a", "b", "c", "", "0", "1", "2", "a/b", "m~n", "~", "/", "x y", "é", "arr", "~1", "~0", "~01"];
+
+fn gen_tokens(r: &mut Rng, max_depth: usize) -> Vec<String> {
+    let d = if r.chance(1, 12) { 0 } else { 1 + r.usize_below(max_depth) };
+    (0..d).map(|_| r.pick(&TOKENS).to_string()).collect()
+}
+
+fn gen_pointer(r: &mut Rng) -> String {
+    // bare "/" (root here, [""] in RFC 6901) is outside the quantifier: never generated
+    loop {
+        let p = match r.below(12) {
+            0 => match r.below(5) {
+                // malformed pointers
+                0 => "a/b".to_string(),
+                1 => "/a~2b".to_string(),
+                2 => "/a~".to_string(),
+                3 => "x".to_string(),
+                _ => format!("/{}~x", r.pick(&TOKENS)),
+            },
+            1 => to_ptr(&gen_tokens(r, 12)),
+            _ => to_ptr(&gen_tokens(r, 3)),
+        };
+        if p != "/" {
+            return p;
+        }
+    }
+}
+
+fn gen_value(r: &mut Rng, tok: u64) -> String {
+    match r.below(8) {
+        0 => format!("{tok}"),
+        1 => format!("\"s{tok}\""),
+        2 => format!("{{\"a\":{tok},\"b\":{{\"c\":[{tok},2]}}}}"),
+        3 => format!("[{tok},{{\"a\":1}},[3]]"),
+        4 => "null".to_string(),
+        5 => format!("{{\"a/b\":{tok},\"m~n\":{{\"\":{tok}}}}}"),
+        6 => format!("{{\"arr\":[{tok},1,2]}}"),
+        _ => "true".to_string(),
+    }
+}
+
+fn gen_op(r: &mut Rng, tok: u64) -> Op {
+    match r.below(20) {
+        0 | 1 => {
+            let toks = gen_tokens(r, 3);
+            let p = if toks.is_empty() { String::new() } else if r.chance(1, 4) { to_ptr(&toks)[1..].to_string() } else { to_ptr(&toks) };
+            Op::RegValue(p, gen_value(r, tok))
+        }
+        2 => {
+            let toks = gen_tokens(r, 3);
+            Op::RegFn(to_ptr(&toks), tok, if r.chance(1, 5) { 4096 } else { 0 })
+        }
+        3 => Op::MergeAt(to_ptr(&gen_tokens(r, 2)), format!("{{\"k{}\":{tok},\"a\":{tok}}}", r.below(3))),
+        4..=10 => Op::Read(gen_pointer(r)),
+        _ => Op::Write(gen_pointer(r), gen_value(r, tok)),
+    }
+}
+
+fn is_status_ok(v: &Value) -> bool {
+    v.get("status").and_then(|s| s.as_str()) == Some("ok")
+}
+
+/// Execute ops on registry + model, checking every op from `check_from`. Some((index, sig, detail)).
+fn run_seq(ops: &[Op], check_from: usize, init: Option<&Value>) -> Option<(usize, String, String)> {
+    let sys = Sys::new();
+    let mut m = Model::new();
+    if let Some(d) = init {
+        sys.reg.set_root(d.clone());
+        m.doc = d.clone();
+    }
+    for (i, op) in ops.iter().enumerate() {
+        let log_before = sys.log.lock().unwrap().len();
+        let doc_before = m.doc.clone();
+        let name = format!("{op:?}");
+        let name = name.split('(').next().unwrap_or("").to_string();
+        let mut expect_call: Option<(u64, Value)> = None;
+        let (ri, rm): (Out, Out) = match op {
+            Op::RegValue(p, v) => {
+                let a = sys.reg.register_value(p, vj(v)).map_err(|e| e.code() as u32);
+                let b = m.register_value(p, vj(v));
+                (a.map(|_| Out::Written).unwrap_or_else(Out::Err), b.map(|_| Out::Written).unwrap_or_else(Out::Err))
+            }
+            Op::RegFn(p, id, err) => {
+                let a = sys.register_function(p, *id, *err);
+                let b = m.register_function(p, *id, *err);
+                (a.map(|_| Out::Written).unwrap_or_else(Out::Err), b.map(|_| Out::Written).unwrap_or_else(Out::Err))
+            }
+            Op::MergeAt(p, o) => {
+                let obj = vj(o).as_object().cloned().unwrap();
+                let a = sys.reg.merge_at(p, obj.clone()).map_err(|e| e.code() as u32);
+                let b = m.merge_at(p, &obj);
+                (a.map(|_| Out::Written).unwrap_or_else(Out::Err), b.map(|_| Out::Written).unwrap_or_else(Out::Err))
+            }
+            Op::Read(p) => {
+                let (b, _) = m.dispatch(p, None);
+                let a = sys.dispatch(p, None, b == Out::FnDescriptor, |_| false);
+                (a, b)
+            }
+            Op::Write(p, v) => {
+                let body = vj(v);
+                let (b, call) = m.dispatch(p, Some(&body));
+                expect_call = call;
+                let written = b == Out::Written;
+                let a = sys.dispatch(p, Some(&body), false, |v| written && is_status_ok(v));
+                (a, b)
+            }
+        };
+        if i < check_from {
+            continue;
+        }
+        if ri != rm {
+            return Some((i, format!("C14:result:{name}"), format!("{op:?} returned {ri:?}, model {rm:?}")));
+        }
+        let doc = sys.doc();
+        if doc != m.doc {
+            let class = if matches!(op, Op::Read(_)) || matches!(&rm, Out::Err(_)) { "mutated-by-non-write" } else { "document" };
+            return Some((i, format!("C14:{class}:{name}"), format!("after {op:?}: document is {doc}, model {} (before: {doc_before})", m.doc)));
+        }
+        let log = sys.log.lock().unwrap();
+        let new: Vec<_> = log[log_before..].to_vec();
+        match (&expect_call, new.as_slice()) {
+            (None, []) => {}
+            (Some((id, body)), [(gid, gbody)]) if gid == id && gbody == body => {}
+            (want, got) => {
+                return Some((i, format!("C14:callable-invocation:{name}"), format!("{op:?}: callable invocations {got:?}, expected {want:?}")));
+            }
+        }
+        // read-your-writes through the public read path and through the plain-document helpers
+        if let (Op::Write(p, v), Out::Written) = (op, &rm) {
+            if let Ok(toks) = parse_ptr(p) {
+                if !toks.is_empty() {
+                    let back = sys.reg.dispatch(p, None).ok();
+                    if back != Some(vj(v)) && !m.fns.contains_key(&to_ptr(&toks)) {
+                        return Some((i, "C14:read-your-write".into(), format!("wrote {v} at {p}, next read returned {back:?}")));
+                    }
+                }
+            }
+        }
+    }
+    None
+}
+
+fn opj(ops: &[Op]) -> Value {
+    json!(ops.iter().map(|o| format!("{o:?}")).collect::<Vec<_>>())
+}
+
+// ------------------------------------------------------------------ pointer helpers
+
+fn check_helpers(rep: &mut Report, r: &mut Rng) {
+    let toks = gen_tokens(r, 40);
+    if toks.is_empty() || (toks.len() == 1 && toks[0].is_empty()) {
+        return;
+    }
+    rep.eval();
+    rep.distinct(&("helpers", &toks));
+    let p = to_ptr(&toks);
+    match catching(|| repe::parse_json_pointer(&p)) {
+        Ok(got) if got == toks => {}
+        Ok(got) => rep.violation("C14:pointer-helper:parse", format!("parse_json_pointer({p:?}) = {got:?}, tokens were {toks:?}"), json!({"pointer": p})),
+        Err(e) => rep.violation("C14:pointer-helper:panic", e, json!({"pointer": p})),
+    }
+    // evaluate against a document built to contain the path
+    let mut doc = json!({"leaf": 1});
+    for t in toks.iter().rev() {
+        doc = if index(t, 3).is_some() && r.coin() {
+            let mut a = vec![json!(null), json!(null), json!(null)];
+            a[index(t, 3).unwrap()] = doc;
+            Value::Array(a)
+        } else {
+            json!({ t.clone(): doc })
+        };
+    }
+    let want = resolve(&doc, &toks).cloned();
+    match catching(|| repe::eval_json_pointer(&doc, &p).cloned()) {
+        Ok(got) if got == want && want.is_some() => {}
+        Ok(got) => rep.violation("C14:pointer-helper:eval", format!("eval_json_pointer({p:?}) = {got:?}, expected {want:?}"), json!({"pointer": p, "doc": doc})),
+        Err(e) => rep.violation("C14:pointer-helper:panic", e, json!({"pointer": p})),
+    }
+    // the registry reads the same location
+    let reg = Registry::new();
+    reg.set_root(doc.clone());
+    match reg.read_value(&p) {
+        Ok(v) if Some(&v) == want.as_ref() => {}
+        other => rep.violation("C14:deep-read", format!("read_value({p:?}) = {other:?}, expected {want:?}"), json!({"pointer": p, "doc": doc})),
+    }
+}
+
+// ------------------------------------------------------------------ mount replay
+
+fn check_mount(rep: &mut Report, r: &mut Rng, case: u64) {
+    let prefix = *r.pick(&["", "/reg", "/api/v1", "/a~1b", "/reg/sub"]);
+    let direct = Sys::new();
+    let mounted = Sys::new();
+    let router = Router::new().with_registry(prefix, mounted.reg.clone());
+    let init = json!({"a": {"b": 1}, "arr": [1, 2, 3], "a/b": {"m~n": 5}});
+    direct.reg.set_root(init.clone());
+    mounted.reg.set_root(init);
+    for s in [&direct, &mounted] {
+        s.register_function("/fn", 1, 0).unwrap();
+        s.register_function("/a~1b/call", 2, 0).unwrap();
+    }
+    let n = 1 + r.usize_below(12);
+    for j in 0..n {
+        let ptr = match r.below(6) {
+            0 => "/fn".to_string(),
+            1 => "/a~1b/call".to_string(),
+            _ => gen_pointer(r),
+        };
+        if ptr.is_empty() && prefix.is_empty() {
+            continue;
+        }
+        let body = if r.coin() { None } else { Some(vj(&gen_value(r, case * 100 + j as u64))) };
+        rep.eval();
+        rep.distinct(&("mount", prefix, &ptr, body.is_some()));
+        let d = direct.reg.dispatch(&ptr, body.clone());
+        let path = format!("{prefix}{ptr}");
+        let Some(h) = router.get(&path) else {
+            // a malformed pointer without leading '/' glued to the prefix is a different route; only
+            // well-formed sub-paths must reach the mount
+            if ptr.starts_with('/') || ptr.is_empty() {
+                rep.violation("C14:mount:not-routed", format!("path {path:?} under prefix {prefix:?} did not reach the registry mount"), json!({"prefix": prefix, "pointer": ptr}));
+            }
+            continue;
+        };
+        if !(ptr.starts_with('/') || ptr.is_empty()) {
+            continue;
+        }
+        let mut b = Message::builder().id(j as u64 + 1).query_str(&path).query_format(QueryFormat::JsonPointer);
+        if let Some(v) = &body {
+            b = b.body_json(v).unwrap();
+        }
+        let req = b.build();
+        let resp = match catching(|| h.handle(&req)) {
+            Ok(Ok(m)) => m,
+            Ok(Err(e)) => {
+                rep.violation("C14:mount:handler-error", format!("mounted registry handler returned Err({e}) for {path:?}"), json!({"prefix": prefix, "pointer": ptr}));
+                continue;
+            }
+            Err(p) => {
+                rep.violation("C14:mount:panic", p, json!({"prefix": prefix, "pointer": ptr}));
+                continue;
+            }
+        };
+        let same = match &d {
+            Ok(v) => resp.header.ec == 0 && serde_json::from_slice::<Value>(&resp.body).ok().as_ref() == Some(v),
+            Err(e) => resp.header.ec == e.code() as u32,
+        };
+        if !same {
+            rep.violation(
+                "C14:mount:differs-from-direct",
+                format!("prefix {prefix:?} pointer {ptr:?} body {body:?}: direct dispatch {d:?}, mounted response ec={} body={}", resp.header.ec, String::from_utf8_lossy(&resp.body)),
+                json!({"prefix": prefix, "pointer": ptr}),
+            );
+        }
+        if direct.doc() != mounted.doc() || *direct.log.lock().unwrap() != *mounted.log.lock().unwrap() {
+            rep.violation("C14:mount:state-differs", format!("after {path:?}: mounted registry state differs from the directly driven twin"), json!({"prefix": prefix, "pointer": ptr}));
+        }
+    }
+}
+
+// ------------------------------------------------------------------ concurrency
+
+#[derive(Clone, Debug)]
+struct Ev {
+    ptr: String,
+    body: Option<Value>,
+    out: Out,
+    call: u64,
+    done: u64,
+    thread: usize,
+}
+
+fn linearizable(h: &[Ev], init: &Model, budget: &mut u64) -> Option<bool> {
+    fn rec(h: &[Ev], mask: u32, m: &Model, memo: &mut HashSet<(u32, u64)>, budget: &mut u64) -> Option<bool> {
+        if mask == (1u32 << h.len()) - 1 {
+            return Some(true);
+        }
+        if *budget == 0 {
+            return None;
+        }
+        *budget -= 1;
+        if !memo.insert((mask, hash_of(&m.doc.to_string()))) {
+            return Some(false);
+        }
+        let min_done = (0..h.len()).filter(|i| mask & (1 << i) == 0).map(|i| h[i].done).min().unwrap();
+        for i in 0..h.len() {
+            if mask & (1 << i) != 0 || h[i].call > min_done {
+                continue;
+            }
+            let mut m2 = m.clone();
+            let (out, _) = m2.dispatch(&h[i].ptr, h[i].body.as_ref());
+            if out == h[i].out {
+                match rec(h, mask | (1 << i), &m2, memo, budget) {
+                    Some(true) => return Some(true),
+                    None => return None,
+                    Some(false) => {}
+                }
+            }
+        }
+        Some(false)
+    }
+    rec(h, 0, init, &mut HashSet::new(), budget)
+}
+
+fn concurrent_case(rng: &mut Rng, threads: usize, per: usize) -> (Vec<Ev>, Model, usize, usize) {
+    let sys = Arc::new(Sys::new());
+    let init = json!({"a": {"b": 0}, "arr": [0, 0], "k": 0});
+    sys.reg.set_root(init.clone());
+    sys.register_function("/fn", 1, 0).unwrap();
+    let mut model = Model::new();
+    model.doc = init;
+    model.register_function("/fn", 1, 0).unwrap();
+    let ptrs = ["/a", "/a/b", "/arr/1", "/k", "/fn", "", "/missing/x"];
+    let clock = Arc::new(AtomicU64::new(0));
+    let hist = Arc::new(Mutex::new(vec![]));
+    let barrier = Arc::new(std::sync::Barrier::new(threads));
+    let mut hs = vec![];
+    let mut expected_calls = 0;
+    let mut plans = vec![];
+    for t in 0..threads {
+        let mut r = rng.fork(t as u64);
+        let plan: Vec<(String, Option<Value>)> = (0..per)
+            .map(|j| {
+                let p = r.pick(&ptrs).to_string();
+                let tok = (t * 100 + j) as u64 + 1;
+                let body = if r.chance(2, 5) {
+                    None
+                } else if p.is_empty() {
+                    Some(json!({"k": tok, format!("t{t}"): tok}))
+                } else if p == "/a" {
+                    Some(json!({"b": tok}))
+                } else {
+                    Some(json!(tok))
+                };
+                (p, body)
+            })
+            .collect();
+        expected_calls += plan.iter().filter(|(p, b)| p == "/fn" && b.is_some()).count();
+        plans.push(plan);
+    }
+    for (t, plan) in plans.into_iter().enumerate() {
+        let (sys, clock, hist, barrier) = (sys.clone(), clock.clone(), hist.clone(), barrier.clone());
+        let mut r = rng.fork(1000 + t as u64);
+        hs.push(std::thread::spawn(move || {
+            barrier.wait();
+            for (p, body) in plan {
+                if r.coin() {
+                    std::thread::yield_now();
+                }
+                let call = clock.fetch_add(1, Ordering::SeqCst);
+                let res = sys.reg.dispatch(&p, body.clone());
+                let done = clock.fetch_add(1, Ordering::SeqCst);
+                let out = match res {
+                    Ok(v) => {
+                        if body.is_none() {
+                            if p == "/fn" { Out::FnDescriptor } else { Out::Val(v) }
+                        } else if p != "/fn" && is_status_ok(&v) {
+                            Out::Written
+                        } else {
+                            Out::Val(v)
+                        }
+                    }
+                    Err(e) => Out::Err(e.code() as u32),
+                };
+                hist.lock().unwrap().push(Ev { ptr: p, body, out, call, done, thread: t });
+            }
+        }));
+    }
+    for h in hs {
+        let _ = h.join();
+    }
+    let h = hist.lock().unwrap().clone();
+    let calls = sys.log.lock().unwrap().len();
+    (h, model, calls, expected_calls)
+}
 
 pub fn run(args: &Args) -> Report {
-    let mut rep = Report::new(args, "c14-stub", "stub");
-    rep.inconclusive("check not implemented");
+    let mut rep = Report::new(
+        args,
+        "c14-model",
+        "Registry vs plain-JSON-document model: (a) ALL read/write sequences up to length 5 over 3 pointers x 3 values on a \
+         fixed document; (b) random sequences up to 100 of register/merge/read/write/call over pointers with escapes, empty \
+         tokens, array indices, malformed pointers and depth <= 12, whole document + callable log compared after every op; \
+         (c) pointer helper round trips to depth 40; (d) the same requests through Router::with_registry under 5 prefixes vs a \
+         directly driven twin; (e) concurrent histories (<=4 threads x 4 ops) checked for linearizability; distinct = distinct \
+         sequences / pointers / histories",
+    );
+    let miri = args.stage.starts_with("miri");
+    quiet_panics(true);
+    let mut rng = Rng::new(args.seed ^ 0xC14);
+
+    // (a) small scope, exhaustive
+    let init = json!({"a": {"b": 1}, "arr": [1, 2]});
+    let ptrs = ["/a", "/a/b", "/arr/0"];
+    let vals = ["7", "{\"b\":2}", "[9]"];
+    let mut alpha = vec![];
+    for p in ptrs {
+        alpha.push(Op::Read(p.to_string()));
+        for v in vals {
+            alpha.push(Op::Write(p.to_string(), v.to_string()));
+        }
+    }
+    let max_len = if miri { 2 } else { 5 };
+    let mut idx: Vec<usize> = vec![];
+    let mut n_ex = 0u64;
+    fn rec(idx: &mut Vec<usize>, alpha: &[Op], max_len: usize, init: &Value, n: &mut u64, rep: &mut Report) {
+        if !idx.is_empty() {
+            let ops: Vec<Op> = idx.iter().map(|&i| alpha[i].clone()).collect();
+            *n += 1;
+            match catching(|| run_seq(&ops, ops.len() - 1, Some(init))) {
+                Ok(None) => {}
+                Ok(Some((_, sig, d))) => rep.violation(sig, d, json!({"init": init, "ops": opj(&ops)})),
+                Err(p) => rep.violation(format!("C14:panic:{}", panic_site(&p)), p, json!({"ops": opj(&ops)})),
+            }
+        }
+        if idx.len() == max_len {
+            return;
+        }
+        for i in 0..alpha.len() {
+            idx.push(i);
+            rec(idx, alpha, max_len, init, n, rep);
+            idx.pop();
+        }
+    }
+    rec(&mut idx, &alpha, max_len, &init, &mut n_ex, &mut rep);
+    rep.evaluations += n_ex;
+    for i in 0..n_ex {
+        rep.distinct(&("x", i));
+    }
+    rep.set("small_scope_sequences", json!(n_ex));
+    rep.set("small_scope_exhaustive", json!(n_ex == (1..=max_len as u32).map(|l| 12u64.pow(l)).sum::<u64>()));
+    rep.exhaustive = Some(false);
+
+    // (b) random sequences
+    let n = args.budget(4_000, 200_000);
+    let mut ops_checked = 0u64;
+    for case in 0..n {
+        let mut r = rng.fork(case);
+        let len = if miri { 1 + r.usize_below(8) } else { 1 + r.usize_below(100) };
+        let ops: Vec<Op> = (0..len).map(|j| gen_op(&mut r, case * 1000 + j as u64)).collect();
+        ops_checked += len as u64;
+        rep.eval();
+        rep.distinct(&ops);
+        if case < 3 {
+            rep.sample(json!({"kind": "random", "ops": opj(&ops[..len.min(8)])}));
+        }
+        match catching(|| run_seq(&ops, 0, None)) {
+            Ok(None) => {}
+            Ok(Some((i, sig, d))) => rep.violation(sig, format!("op #{i}: {d}"), json!({"ops": opj(&ops[..=i])})),
+            Err(p) => rep.violation(format!("C14:panic:{}", panic_site(&p)), p, json!({"ops": opj(&ops)})),
+        }
+    }
+    rep.set("random_operations_checked", json!(ops_checked));
+
+    // (c) helpers, (d) mount
+    let nh = args.budget(3_000, 100_000);
+    for case in 0..nh {
+        let mut r = rng.fork(0x10_0000 + case);
+        check_helpers(&mut rep, &mut r);
+        if case % 4 == 0 {
+            check_mount(&mut rep, &mut r, case);
+        }
+    }
+
+    // (e) concurrent histories
+    let nc = if miri { 2 } else { args.budget(800, 40_000) };
+    let (mut lin_ok, mut overlapping, mut timeouts) = (0u64, 0u64, 0u64);
+    for case in 0..nc {
+        let mut r = rng.fork(0x20_0000 + case);
+        let threads = if miri { 2 } else { 2 + r.usize_below(3) };
+        let (h, model, calls, expected_calls) = concurrent_case(&mut r, threads, if miri { 2 } else { 4 });
+        rep.eval();
+        let mut s = h.clone();
+        s.sort_by_key(|e| e.call);
+        rep.distinct(&s.iter().map(|e| (e.thread, e.ptr.clone(), format!("{:?}", e.out))).collect::<Vec<_>>());
+        if s.windows(2).any(|w| w[1].call < w[0].done) {
+            overlapping += 1;
+        }
+        let hj = || json!(s.iter().map(|e| format!("t{} [{}..{}] {} {:?} -> {:?}", e.thread, e.call, e.done, e.ptr, e.body, e.out)).collect::<Vec<_>>());
+        if calls != expected_calls {
+            rep.violation("C14:callable-invocation:concurrent", format!("{calls} callable invocations for {expected_calls} call requests"), json!({"history": hj()}));
+        }
+        let mut budget = 3_000_000u64;
+        match linearizable(&h, &model, &mut budget) {
+            Some(true) => lin_ok += 1,
+            Some(false) => rep.violation("C14:not-linearizable", "no sequential order of the recorded concurrent history matches the document model", json!({"history": hj()})),
+            None => timeouts += 1,
+        }
+        if case == 0 {
+            rep.sample(json!({"kind": "concurrent", "history": hj()}));
+        }
+    }
+    quiet_panics(false);
+    rep.set("concurrent_histories_linearizable", json!(lin_ok));
+    rep.set("concurrent_histories_with_overlapping_ops", json!(overlapping));
+    rep.set("linearizability_checker_timeouts", json!(timeouts));
+    if timeouts > nc / 10 {
+        rep.inconclusive(format!("linearizability checker timed out on {timeouts} of {nc} histories"));
+    }
+    if !miri && overlapping == 0 {
+        rep.inconclusive("no concurrent history had overlapping operations");
+    }
     rep
 }
